@@ -57,6 +57,7 @@ func (p *preparedLRU) add(key string, val *inflightPrepare) {
 func (p *preparedLRU) remove(key string) bool {
 	p.mu.Lock()
 	defer p.mu.Unlock()
+	verifEvent("lru_remove", p, key, p.lru.Len(), nil)
 	return p.lru.Remove(key)
 }
 
@@ -66,9 +67,11 @@ func (p *preparedLRU) execIfMissing(key string, fn func(lru *lru.Cache) *infligh
 
 	val, ok := p.lru.Get(key)
 	if ok {
+		verifEvent("lru_hit", p, key, p.lru.Len(), nil)
 		return val.(*inflightPrepare), true
 	}
 
+	verifEvent("lru_miss", p, key, p.lru.Len(), nil)
 	return fn(p.lru), false
 }
 
@@ -94,6 +97,7 @@ func (p *preparedLRU) evictPreparedID(key string, id []byte) {
 	select {
 	case <-ifp.done:
 		if bytes.Equal(id, ifp.preparedStatment.id) {
+			verifEvent("lru_evict", p, key, p.lru.Len(), nil)
 			p.lru.Remove(key)
 		}
 	default:
